@@ -69,8 +69,12 @@ ELEMENT_ARGS = {
              "append": [0], "extend": [0], "insert": [1]},
     "dict": {"__init__": "*", "__setitem__": [0, 1], "__ior__": [0],
              "update": "*", "setdefault": [0, 1]},
+    # set intersection is *not* removal-only: CPython builds the result from
+    # whichever operand it iterates, so an equal element of the argument (the
+    # float 1.0 for the integer 1) can replace the set's own element (D42)
     "set": {"__init__": [0], "__ior__": [0], "__ixor__": [0], "add": [0],
-            "update": "*", "symmetric_difference_update": [0]},
+            "update": "*", "symmetric_difference_update": [0],
+            "intersection_update": "*", "__iand__": [0]},
 }
 # Built-in in-place operators return NotImplemented for an operand that is
 # not a set/frozenset, so passing such an operand through cannot add members.
@@ -432,6 +436,7 @@ class MutatorFlow(PyFlow):
             m, args, kws = self.builtin_mutation(e)
             self.mutations.append((m, getattr(e, "lineno", 0)))
             self.mutation_calls.append((m, list(args), list(kws), e, phase))
+            env["#op"] = frozenset([m])     # the built-in operation performed
             self.mutation_mem.setdefault(id(e), []).append(frozenset(
                 (k[5:], next(iter(v))) for k, v in env.items()
                 if k.startswith("#mem:")))
@@ -533,6 +538,7 @@ class MutatorFlow(PyFlow):
                               f"derives from {sorted(bad)} (must be validator "
                               f"output or a post-mutation read)")
                 if self.kind == "set" and self.func.name in SET_INPLACE_OPS \
+                        and env.get("#op", frozenset()) & SET_INPLACE_OPS \
                         and lab & {OPRE, VMQ, VMN, VMP, V} \
                         and "#setop" not in env:
                     self.flag(("delta-args", "predicted", norm(a)),
@@ -556,6 +562,7 @@ class MutatorFlow(PyFlow):
                               f"new value onto an existing member")
             elif role == "removed":
                 if self.kind == "set" and self.func.name in SET_INPLACE_OPS \
+                        and env.get("#op", frozenset()) & SET_INPLACE_OPS \
                         and lab & {OPRE, VMQ, VMN, VMP, V} \
                         and "#setop" not in env:
                     self.flag(("delta-args", "predicted", norm(a)),
@@ -1601,7 +1608,18 @@ DIFFERENT_OP = {
                              "dict.setdefault cannot take a validated key "
                              "that differs from the key tested; the absent "
                              "case is a plain store of validated key/value"),
+    ("set", "intersection_update"): (
+        "difference_update",
+        "set.intersection_update may keep the argument's equal element in "
+        "place of the set's own validated one; removing the own elements "
+        "that are not common keeps the validated ones (D42)"),
+    ("set", "__iand__"): (
+        "difference_update",
+        "as intersection_update; non-set operands are answered with "
+        "NotImplemented by the non-mutating set.__and__"),
 }
+# emulations whose precondition is the caller's key being absent
+ABSENT_PRECONDITION = {("dict", "setdefault")}
 
 
 def refine_rule(kind):
@@ -1632,7 +1650,7 @@ def refine_rule(kind):
                            f"{kind}.{name} where {kind}.{want} is overridden: "
                            f"results, exceptions and edge cases of the "
                            f"built-in {want} are no longer inherited")
-                if (kind, m) in DIFFERENT_OP and name == want:
+                if (kind, m) in ABSENT_PRECONDITION and name == want:
                     # the emulated operation acts only when the caller's key
                     # is absent: every path to the store has decided
                     # `<key> in self` false
